@@ -88,9 +88,32 @@ func pickProject(r *Rand, corpusShare int) *Project {
 	for try := 0; try < 4 && !p.Valid; try++ { // the accessor engines want accepted projects
 		p = genValid(r.Fork())
 	}
+	if typeUsesMix && r.Chance(1, 5) {
+		// user types of every notation used in every place that takes a type: many of these
+		// combinations are accepted, and the serialisers then meet schemas they rarely see
+		root := p.File(p.Root)
+		nl := "\n"
+		if root.CRLF {
+			nl = "\r\n"
+		}
+		s := string(root.Data)
+		if !strings.HasSuffix(s, nl) {
+			s += nl
+		}
+		for i := 0; i < r.Range(1, 2); i++ {
+			s += strings.ReplaceAll(defectBlock("notation-mix", 70+i, r), "\n", nl)
+		}
+		root.Data = []byte(s)
+		p.Kind, p.Valid = "generated-type-uses", false
+		p.Features = append(p.Features, "type-uses-mix")
+	}
 	p.Name = fmt.Sprintf("gen-%x", fnv64(string(p.Files[0].Data)))
 	return p
 }
+
+// typeUsesMix is switched off while the enumeration phase of C16 picks its projects (a rejected
+// project would waste every history enumerated for it).
+var typeUsesMix = true
 
 func randEnv(r *Rand) Env {
 	e := Env{Ambient: r.U64()}
@@ -127,7 +150,9 @@ func (c16Engine) Gen(job *Job) *Case {
 		}
 		pi := job.Index % pool
 		pr := NewRand(RunSeed(0xC16, uint64(pi)))
+		typeUsesMix = false
 		c.Project = pickProject(pr, 40)
+		typeUsesMix = true
 		for _, op := range histByIndex((job.Index / pool) % histCount(maxLen)) {
 			c.History = append(c.History, Step{Op: op})
 		}
